@@ -19,7 +19,7 @@ def run(chk):
                 "(iii) every face list is a simple cycle (consecutive vertices share a second plane), planar, convex, counter-clockwise about the inward normal; (iv) polygon area = area integral, neighbour/shift accessors = face integrals in order; "
                 "(v) V-E+F = 2; (vi) face lists equal Model/Faces token by token; (vii) discard_faces().with_faces() reproduces everything bitwise; 1D/2D: with_faces is rejected (panic) for the cell and the integrator; "
                 "non-trivial = cell with >= 5 faces")
-    chk.lean(['MVoro.Props.C15', 'MVoro.Proofs.FacesProofs'], [], [])
+    chk.lean(['MVoro.Props.C15', 'MVoro.Proofs.FacesProofs', 'MVoro.Proofs.Euler'], [], [])
     got = run_cells_op(chk, op='withfaces')
     if got is None:
         return
